@@ -24,7 +24,10 @@ type Tuple []Value
 
 // SymBytes is []byte(s) for a symbolic string s (only consumable by intrinsics and
 // by conversion back to string).
-type SymBytes struct{ S *sym.Str }
+type SymBytes struct {
+	S   *sym.Str
+	mat Slice // materialised bytes (see matBytes)
+}
 
 type Iface struct {
 	T types.Type // dynamic type; nil for the nil interface
